@@ -25,6 +25,7 @@ type replica struct {
 	pruning  sdk.PruningOptions
 	dead     bool
 	restarts int
+	wantRestart bool
 	extras   int
 }
 
